@@ -20,13 +20,38 @@ for p in props:
     else:
         out.append(f"| {p} | {'yes' if p in claimed else 'no'} | – | – | – | {nf} | {nx} | – |")
 out.append("\n### A.2 Seeded changes (independent sub-agents, property text only) and which check catches them\n")
-out.append("| id | property | what the change does | needs to manifest | first run | after strengthening |")
+out.append("`first run` = result when the change was first tried against the check as it then was; `final` = result of "
+           "`harness/retest_seeded.py` on the final tree (apply patch.diff to /repo, `./check Cxx --tier quick --seed 0`, undo): "
+           "**input** = VIOLATION with a concrete failing input, **tie** = VIOLATION … no-failing-input-found (a source pin / proof "
+           "obligation / correspondence broke, no failing input in the quick tier), **neutralised** = a later `fix:` commit made the "
+           "change harmless (its own demo passes with the patch applied), **n/a** = the patch no longer applies to the repaired code "
+           "(meta.json says how it was re-created or why not).\n")
+res = json.loads((V / "seeded/RESULTS.json").read_text()) if (V / "seeded/RESULTS.json").exists() else {}
+out.append("| id | property | what the change does | needs to manifest | first run | final |")
 out.append("|---|---|---|---|---|---|")
+tot = {"input": 0, "tie": 0, "missed": 0, "neutralised": 0, "n/a": 0}
 for d in sorted((V / "seeded").glob("*/meta.json")):
     m = json.loads(d.read_text())
-    summ = str(m.get("summary", "")).replace("|", "/").replace("\n", " ")[:260]
-    need = str(m.get("needs_to_manifest", "")).replace("|", "/").replace("\n", " ")[:200]
-    out.append(f"| {m.get('id')} | {m.get('breaks_property')} | {summ} | {need} | {m.get('result_first_run', '')} | {m.get('result_after_strengthening', '')} |")
+    summ = str(m.get("summary", "")).replace("|", "/").replace("\n", " ")[:220]
+    need = str(m.get("needs_to_manifest", "")).replace("|", "/").replace("\n", " ")[:160]
+    r = res.get(m.get("id"), {})
+    if not r:
+        fin = "?"
+    elif not r.get("applies"):
+        fin = "n/a"
+    elif r.get("demo_patched") == 0:
+        fin = "neutralised"
+    elif r.get("exit") == 1:
+        fin = "input" if r.get("failing_input") else "tie"
+    elif r.get("exit") == 0:
+        fin = "missed"
+    else:
+        fin = f"exit {r.get('exit')}"
+    if fin in tot:
+        tot[fin] += 1
+    first = str(m.get("result_first_run", "")).split(" (")[0]
+    out.append(f"| {m.get('id')} | {m.get('breaks_property')} | {summ} | {need} | {first} | **{fin}** |")
+out.append(f"\nTotals on the final tree: {tot}.\n")
 out.append("\n### A.3 Known findings (genuine defects recorded, not repaired)\n")
 for e in kf:
     if e["status"] == "finding":
